@@ -95,6 +95,7 @@ def risk_ci(events, total, alpha=0.05, confint='wald'):
 
     >>> r.standard_error
     """
+    events, total = float(events), float(total)  # fixed-width integer counts would overflow in the variance
     risk = events / total
     c = 1 - alpha / 2
     zalpha = normal_ppf(c)
@@ -164,6 +165,7 @@ def incidence_rate_ci(events, time, alpha=0.05):
 
     >>> i.standard_error
     """
+    events, time = float(events), float(time)  # fixed-width integer person-time would overflow when squared
     c = 1 - alpha / 2
     ir = events / time
     zalpha = normal_ppf(c)
@@ -589,6 +591,7 @@ def incidence_rate_difference(a, c, t1, t2, alpha=0.05):
     check_nonnegativity_or_throw(t2, t1)
     warn_if_normal_approximation_invalid(a, c)
 
+    t1, t2 = float(t1), float(t2)  # fixed-width integer person-time would overflow when squared
     zalpha = normal_ppf(1 - alpha / 2)
     rated1 = a / t1
     rated2 = c / t2
@@ -1026,6 +1029,7 @@ def sensitivity(detected, cases, alpha=0.05, confint='wald'):
     if detected > cases:
         raise ValueError('Detected true cases must be less than or equal to the total number of cases')
 
+    detected, cases = float(detected), float(cases)  # fixed-width integer counts would overflow in the variance
     sens = detected / cases
     zalpha = norm.ppf(1 - alpha / 2, loc=0, scale=1)
     if confint == 'wald':
@@ -1086,6 +1090,7 @@ def specificity(detected, noncases, alpha=0.05, confint='wald'):
 
     if detected > noncases:
         raise ValueError('Detected true cases must be less than or equal to the total number of cases')
+    detected, noncases = float(detected), float(noncases)  # fixed-width integer counts would overflow in the variance
     spec = 1 - (detected / noncases)
     zalpha = norm.ppf(1 - alpha / 2, loc=0, scale=1)
     if confint == 'wald':
